@@ -183,8 +183,24 @@ class GSym(LSym):
             # the arms are exhaustive (every feasible outcome of the comparison is an arm):  merged = sum_arm [arm] * value_arm .
             # (not base + sum [arm]*(value_arm - base): that multiplies the old content by (1 - sum [writers]) and makes dead temporaries,
             #  which are merged again in every iteration, grow exponentially)
+            # two equivalent forms (the arms are exhaustive); the smaller one is kept:
+            #  (a) sum over groups of arms with equal value of [group condition]*value  - old content kept by several arms is multiplied by ONE variable;
+            #  (b) v0 + sum_arm [arm]*(value_arm - v0) with v0 the value of the arm that did not write (or the first): exact cancellation when the
+            #      arms' values share a large common part (bucket arrays)
             acc = G()
             for b, v in self.arm_groups(per, vals, lambda x, y: x is y or x.eq(y)): acc = acc + v.scale(b)
+            acc = self.gnorm(acc)
+            v0 = None
+            for (d, e), v in zip(per, vals):
+                if v is base[0]: v0 = v; break
+            if v0 is None: v0 = vals[0]
+            acc2 = v0
+            for (d, _), v in zip(per, vals):
+                if v is v0: continue
+                acc2 = acc2 + (v - v0).scale(self.boolvar(Cond("cmp", d[0], d[1], ZERO)))
+            acc2 = self.gnorm(acc2)
+            size_ = lambda g: sum(len(pp.t) for pp in g.c.values())
+            if size_(acc2) < size_(acc): acc = acc2
             acc = self.gnorm(acc)
             import os
             if os.environ.get("VP_DEBUG_MERGE"):
